@@ -130,7 +130,7 @@ Valid(p, a, b) ==
                          /\ SubSeq(a, OE(h), O1(nx) - 1) = SubSeq(b, NE(h), N1(nx) - 1)
 
 (* ---------------- the apply automaton ---------------- *)
-VARIABLES a, b, n, rev, patch, gi,      \* the input, fixed after Init / Make
+VARIABLES a, b, n, rev, patch, gi,      \* the input, fixed after Pick / Make
           pc, i, sl, target, err
 input == <<a, b, n, rev, patch, gi>>
 vars == <<a, b, n, rev, patch, gi, pc, i, sl, target, err>>
@@ -139,14 +139,19 @@ Src == IF rev THEN b ELSE a
 Dst == IF rev THEN a ELSE b
 Mine == IF rev THEN "del" ELSE "ins"       \* lines that exist only in the result
 
-Init == /\ \/ /\ Mode # "given" /\ gi = 0
-              /\ a \in (IF CanonA THEN {t \in Texts : IsCanon(t)} ELSE Texts)
-              /\ b \in Texts /\ n \in Contexts
-              /\ patch = <<>> /\ rev = FALSE /\ pc = "make"
+\* The input is picked by the first action, not by Init: TLC handles a large set of successor states
+\* much better than a large set of initial states.
+Init == /\ a = <<>> /\ b = <<>> /\ n = 0 /\ rev = FALSE /\ patch = <<>> /\ gi = 0
+        /\ pc = "pick" /\ i = 1 /\ sl = 0 /\ target = <<>> /\ err = ""
+Pick == /\ pc = "pick"
+        /\ \/ /\ Mode # "given"
+              /\ a' \in (IF CanonA THEN {t \in Texts : IsCanon(t)} ELSE Texts)
+              /\ b' \in Texts /\ n' \in Contexts
+              /\ pc' = "make" /\ UNCHANGED <<rev, patch, gi>>
            \/ /\ Mode = "given"
-              /\ \E g \in Given : gi = g[1] /\ a = g[2] /\ b = g[3] /\ n = g[4] /\ patch = g[5]
-              /\ rev \in BOOLEAN /\ pc = "header"
-        /\ i = 1 /\ sl = 0 /\ target = <<>> /\ err = ""
+              /\ \E g \in Given : gi' = g[1] /\ a' = g[2] /\ b' = g[3] /\ n' = g[4] /\ patch' = g[5]
+              /\ rev' \in BOOLEAN /\ pc' = "header"
+        /\ UNCHANGED <<i, sl, target, err>>
 
 \* make_patch: some edit script of the chosen family, grouped with n lines of context; then the direction is chosen
 Make == /\ pc = "make"
@@ -188,7 +193,7 @@ EndHunk == /\ pc = "body" /\ ~IsBody(i)
 Finish == /\ pc = "hunk" /\ i > Len(patch)
           /\ target' = target \o SubSeq(Src, sl + 1, Len(Src)) /\ sl' = Len(Src) /\ pc' = "done"
           /\ UNCHANGED <<input, i, err>>
-Next == Make \/ Header \/ Hunk \/ Line \/ NoEol \/ EndHunk \/ Finish
+Next == Pick \/ Make \/ Header \/ Hunk \/ Line \/ NoEol \/ EndHunk \/ Finish
 Spec == Init /\ [][Next]_vars
 
 (* ---------------- C30 ---------------- *)
